@@ -136,5 +136,8 @@ inline void finish () { G().val.close (); G().cex.close (); }
 double sym_drand48 ();
 long sym_random ();
 #define drand48 sym_drand48
+#ifdef SYMX_SCRIPT_RANDOM
+#define random sym_random
+#endif
 
 #endif
